@@ -319,6 +319,9 @@ def large_case(ctx, idx, rng):
     L = int(rng.integers(8, 25))
     d = int(rng.choice([2, 3, 5, 6]))
     Dmax = int(rng.choice([6, 10, 16]))
+    if idx % 8 == 5:
+        # short chain with very large (redundant) bonds: work arrays far beyond the usual sizes
+        L, d, Dmax = int(rng.choice([3, 4])), int(rng.choice([2, 3])), int(rng.integers(200, 400))
     layout = str(rng.choice(['zero', 'unsorted', 'sorted', 'pairs']))
     qd = _qd(rng, d, layout)
     kind = str(rng.choice(['complex', 'real', 'mixed']))
@@ -495,6 +498,6 @@ SPEC = {
         Workload('insitu', insitu_case, quick=80, thorough=10000),
         Workload('suite-soak', soak_case, quick=0, thorough=1, shardable=False),
     ],
-    'shards': {'quick': 1, 'thorough': 16},
+    'shards': {'quick': 4, 'thorough': 16},
     'assumptions': ['dense contraction in pvm/refs.py; tolerance 1e-10 relative (1e-4 for single-precision tensors)'],
 }
